@@ -287,7 +287,7 @@ impl<'ast, 'res> Resolver<'ast, 'res> {
             Stmt::If { cond, then_b, else_b, .. } => {
                 self.check_expr(cond);
                 self.check_boolean_expr(cond);
-                self.set_stmt_expr_class(self.classify_expr(cond));
+                self.set_stmt_expr_class(self.classify_condition(cond));
                 self.check_block(then_b);
                 // Else block is optional in the grammar
                 if let Some(eb) = else_b {
@@ -298,7 +298,7 @@ impl<'ast, 'res> Resolver<'ast, 'res> {
             Stmt::Loop { cond, body, .. } => {
                 self.check_expr(cond);
                 self.check_boolean_expr(cond);
-                self.set_stmt_expr_class(self.classify_expr(cond));
+                self.set_stmt_expr_class(self.classify_condition(cond));
                 self.in_loop += 1;
                 self.check_block(body);
                 self.in_loop -= 1;
@@ -1177,13 +1177,23 @@ impl<'ast, 'res> Resolver<'ast, 'res> {
                 .join(ExprClass::PureMayTrap),
             Expr::Binary { op, lhs, rhs, .. } => {
                 let class = self.classify_expr(lhs).join(self.classify_expr(rhs));
-                if matches!(op, BinaryOp::Divide | BinaryOp::Mod) {
+                // Besides division by zero, every operator raises `Type mismatch` when an
+                // operand has the wrong type at run time, which only literal operands rule out.
+                if matches!(op, BinaryOp::Divide | BinaryOp::Mod) || self.literal_type(expr).is_none()
+                {
                     class.join(ExprClass::PureMayTrap)
                 } else {
                     class
                 }
             }
-            Expr::Unary { expr, .. } => self.classify_expr(expr),
+            Expr::Unary { expr: operand, .. } => {
+                let class = self.classify_expr(operand);
+                if self.literal_type(expr).is_none() {
+                    class.join(ExprClass::PureMayTrap)
+                } else {
+                    class
+                }
+            }
             Expr::Member { object, .. } => self.classify_expr(object),
             Expr::Call { callee, args, .. } => {
                 let mut class = args
@@ -1195,6 +1205,14 @@ impl<'ast, 'res> Resolver<'ast, 'res> {
                     Expr::Var(func_name, ..) => {
                         if let Some(builtin) = GlobalBuiltin::from_name(func_name) {
                             class = class.join(effects::global_builtin_class(builtin));
+                            // `command` rejects a non-string program name at run time.
+                            if matches!(builtin, GlobalBuiltin::Command)
+                                && !args.args.iter().all(|arg| {
+                                    self.literal_type(arg) == Some(ValueType::String)
+                                })
+                            {
+                                class = class.join(ExprClass::PureMayTrap);
+                            }
                         } else if self.lookup_func(func_name).is_none() {
                             class = class.join(ExprClass::Impure);
                         }
@@ -1202,7 +1220,11 @@ impl<'ast, 'res> Resolver<'ast, 'res> {
                     Expr::Member { object, field, .. } => {
                         class = class.join(self.classify_expr(object));
                         if let Some(builtin) = MemberBuiltin::from_name(field) {
-                            class = class.join(effects::member_builtin_class(builtin));
+                            // A receiver or argument of the wrong run-time type raises
+                            // `Type mismatch`, so a method call is never trap-free.
+                            class = class
+                                .join(effects::member_builtin_class(builtin))
+                                .join(ExprClass::PureMayTrap);
                         } else {
                             class = class.join(ExprClass::Impure);
                         }
@@ -1212,6 +1234,73 @@ impl<'ast, 'res> Resolver<'ast, 'res> {
 
                 class
             }
+        }
+    }
+
+    /// A condition that is not certainly a boolean (or null) raises `Type mismatch`.
+    fn classify_condition(&self, cond: ExprRef<'ast>) -> ExprClass {
+        let class = self.classify_expr(cond);
+        if matches!(self.literal_type(cond), Some(ValueType::Bool | ValueType::Null)) {
+            class
+        } else {
+            class.join(ExprClass::PureMayTrap)
+        }
+    }
+
+    /// Type the value is certain to have at run time because the expression is built from
+    /// literals only and none of its operators can reject its operands. The variable types
+    /// recorded while checking are deliberately not used: a reassignment, a capture write or
+    /// a dynamically typed parameter can give a variable another type at run time.
+    fn literal_type(&self, expr: ExprRef<'ast>) -> Option<ValueType> {
+        const fn boolish(t: ValueType) -> bool {
+            matches!(t, ValueType::Bool | ValueType::Null)
+        }
+
+        match expr {
+            Expr::Number(..) => Some(ValueType::Number),
+            Expr::Bool(..) => Some(ValueType::Bool),
+            Expr::Null(..) => Some(ValueType::Null),
+            Expr::String { .. } => Some(ValueType::String),
+            Expr::Array { elements, .. } => elements
+                .iter()
+                .all(|element| self.literal_type(element).is_some())
+                .then_some(ValueType::Array),
+            Expr::Binary { op, lhs, rhs, .. } => {
+                let l = self.literal_type(lhs)?;
+                let r = self.literal_type(rhs)?;
+                match op {
+                    BinaryOp::Add => match (l, r) {
+                        (ValueType::Number, ValueType::Number) => Some(ValueType::Number),
+                        (ValueType::String, ValueType::String | ValueType::Number)
+                        | (ValueType::Number, ValueType::String) => Some(ValueType::String),
+                        _ => None,
+                    },
+                    BinaryOp::Minus | BinaryOp::Times => {
+                        matches!((l, r), (ValueType::Number, ValueType::Number))
+                            .then_some(ValueType::Number)
+                    }
+                    BinaryOp::Divide | BinaryOp::Mod => None,
+                    BinaryOp::And | BinaryOp::Or => {
+                        (boolish(l) && boolish(r)).then_some(ValueType::Bool)
+                    }
+                    BinaryOp::Eq | BinaryOp::Gt | BinaryOp::Lt => match (l, r) {
+                        (ValueType::Number, ValueType::Number)
+                        | (ValueType::String, ValueType::String)
+                        | (ValueType::Bool, ValueType::Bool)
+                        | (ValueType::Null, ..)
+                        | (.., ValueType::Null) => Some(ValueType::Bool),
+                        _ => None,
+                    },
+                }
+            }
+            Expr::Unary { op, expr, .. } => {
+                let t = self.literal_type(expr)?;
+                match op {
+                    UnaryOp::Not => boolish(t).then_some(ValueType::Bool),
+                    UnaryOp::Minus => (t == ValueType::Number).then_some(ValueType::Number),
+                }
+            }
+            Expr::Var(..) | Expr::Index { .. } | Expr::Member { .. } | Expr::Call { .. } => None,
         }
     }
 
